@@ -350,6 +350,17 @@ public:
     void
     appendChildNode(XalanSourceTreeProcessingInstruction*   theChild);
 
+    /**
+     * Take the next document-order index.  A document fragment built
+     * in this document takes one before its content is created, so
+     * that it precedes the nodes it contains.
+     */
+    IndexType
+    getNextIndexValue()
+    {
+        return m_nextIndexValue++;
+    }
+
 private:
 
     MemoryManager&
